@@ -194,6 +194,14 @@ from . import removals
 
 from . import mustcall
 
+from . import vocab
+
+
+def _c02_o6(W, ob):
+    from . import c02 as _m
+    return _m.o6(W, ob)
+
+
 OBLIGATIONS = [
     ('C09.O1', 'examine before confirm', 'in advance_frame_after_poll no checksum send/compare site is reachable after a call that may reach '
      'set_last_confirmed_frame; both run on every advance while detection is on.', o1),
@@ -202,9 +210,11 @@ OBLIGATIONS = [
     ('C09.O3', 'truthful report and event', 'reported and remembered (frame, checksum) come from one cell; DesyncDetected carries key, remote value and '
      'the local value for that key under their inequality; compared entries are removed.', o3),
     ('C09.O4', 'interval 0 rejected', 'start_p2p_session returns InvalidRequest for DesyncDetection::On{interval: 0} before constructing.', o4),
+    ('C09.O5', 'the checksum of a frame is that of its last simulation (= C02.O6)', 'checksums are read from the save cells: every frame that is simulated again is saved again (and the per-call save is unconditional), otherwise a cell keeps the checksum of a mispredicted simulation and both peers raise a false DesyncDetected; see C02.O6', _c02_o6),
     ('C09.H', 'helpers the rules above rely on', 'the bodies of the helpers named by this property\'s rules compute what the rules assume (checksum_report, cell_accessors, saved_state_by_frame); see rules/helpers.py', helpers.bundle('checksum_report', 'cell_accessors', 'saved_state_by_frame')),
     ('C09.I', 'initial state', 'every constructor gives the fields this property\'s rules interpret (NULL_FRAME = none / nothing yet, 0 = first frame, latches open, typestate start) the value listed in tables/initial_state.json; every field compared with NULL_FRAME anywhere is listed; see rules/initial.py', initial.rule_for('C09')),
     ('C09.C', 'lossy integer casts', 'every sign-changing cast (signed -> unsigned; NULL_FRAME is -1) and every narrowing cast to < 32 bits or from 128 bits in the crate is in range by a dominating guard, by the shape of its operand, or listed with a reason in tables/casts.json; see rules/casts.py', casts.rule),
     ('C09.R', 'who may remove', 'every call that takes elements out of a collection this property\'s rules rely on (keyed removal from a map, or bulk / positional removal) is one of the reviewed sites in tables/removals.json; a lookup turned into a removal, a second prune, a clear on another path is reported; see rules/removals.py', removals.rule_for('C09')),
     ('C09.M', 'must-call floor', 'the calls listed for this property in tables/must_call.json are made on every path from the entry of their function to a normal return (interprocedural must-call): a new early return, fast path or extra condition in front of one of them is reported; see rules/mustcall.py', mustcall.rule_for('C09')),
+    ('C09.V', 'no unreviewed condition in the pinned helpers', 'for each helper whose body this property\'s rules pin (tables/condition_terms.json), the terms its path conditions are built from (fields, parameters, call results -- no constants, operators or local names) are a subset of the reviewed vocabulary: one more `if` in front of a pinned result (a lock that may time out, "only while an endpoint is running") is reported; see rules/vocab.py', vocab.rule_for('C09')),
 ]
